@@ -727,7 +727,8 @@ impl<W: Write> Interp<W> {
                 let cap = n(op, "cap") as usize;
                 ev.insert("how".into(), json!(how));
                 ev.insert("hasher".into(), json!(hasher));
-                ev.insert("reqcap".into(), json!(cap));
+                // only the constructors that take a capacity promise one
+                ev.insert("reqcap".into(), json!(if how.contains("capacity") { cap } else { 0 }));
                 match catch_unwind(AssertUnwindSafe(|| Q::make(&kind, &hasher, how, cap))) {
                     Ok(q) => {
                         self.qs.insert(qid, q);
